@@ -170,7 +170,7 @@ fn seqs<C: Cm>(t: &SeqTriple) -> PResult {
         let want: Vec<String> = colex_sorted(&[ca.clone(), cb.clone(), cc.clone()]).iter().map(|x| sy.text(x)).collect();
         ensure_eq!(got, want, format!("seq_sort/{n}"), "sorting three equal-length sequences");
     }
-    let stale = |s: &SeqSpec| matches!(s.repr, Repr::Truncated { .. } | Repr::Edited { .. } | Repr::OffsetOwned { .. } | Repr::RemovedPrefix { .. } | Repr::ToRev2 { .. });
+    let stale = |s: &SeqSpec| matches!(s.repr, Repr::Truncated { .. } | Repr::Edited { .. } | Repr::OffsetOwned { .. } | Repr::RemovedPrefix { .. } | Repr::ToRev2 { .. } | Repr::Refilled { .. } | Repr::TruncExtend { .. });
     Ok(Pass::new(nt).class_if(ca.len() == cb.len(), "equal_length").class_if(ca.len() != cb.len(), "unequal_length").class_if(stale(&t.a) || stale(&t.b), "edited_or_offset_born"))
 }
 
@@ -305,15 +305,20 @@ pub fn run(ctx: &mut Ctx) {
     }
     for id in ALL_CODECS {
         let m = id.model();
-        let th = ctx.thorough();
-        let cases = ctx.cases(5, 8);
-        let st = (gen::owned_spec_long(id, th), gen::owned_repr(m), gen::owned_repr(m))
-            .prop_flat_map(move |(a, rb, rc)| {
-                let ca = a.codes.clone();
-                (Just(a), related(m, ca.clone()), Just(rb), related(m, ca), Just(rc))
-            })
-            .prop_map(move |(a, b, rb, c, rc)| SeqTriple { codec: id, a, b: SeqSpec { codes: b, repr: rb }, c: SeqSpec { codes: c, repr: rc } });
-        ctx.forall(&format!("seqs_long/{}", id.name()), cases, st, seq_dispatch);
+        let lens = gen::long_lens(ctx.thorough());
+        ctx.forall_lens(
+            &format!("seqs_long/{}", id.name()),
+            &lens,
+            |n| {
+                (gen::owned_spec_n(id, n), gen::owned_repr(m), gen::owned_repr(m))
+                    .prop_flat_map(move |(a, rb, rc)| {
+                        let ca = a.codes.clone();
+                        (Just(a), related(m, ca.clone()), Just(rb), related(m, ca), Just(rc))
+                    })
+                    .prop_map(move |(a, b, rb, c, rc)| SeqTriple { codec: id, a, b: SeqSpec { codes: b, repr: rb }, c: SeqSpec { codes: c, repr: rc } })
+            },
+            seq_dispatch,
+        );
     }
     ctx.each("readme", vec![0u8], readme);
     ctx.require_class("lex_differs_from_colex");
